@@ -134,6 +134,12 @@ def eval_case(spec):
                     v.count('note-empty-btree-not-interpreted')
                     continue
                 if len(res) != 1:
+                    from .c06 import has_single_variant_cenum as _sv
+                    kt = var['type'].get('inner') if var['type']['k'] in ('btreeset', 'hashset') else var['type'].get('key')
+                    if tag in ('set-member', 'map-key', 'map-key-wildcard') and kt is not None and _sv(kt):
+                        v.violation('c06:enum-undecoded-zero-sized-single-variant:any:local', 'a field-less enum with a single variant is shown without a variant',
+                                    dict(d, n=len(res)), prop='C06')
+                        continue
                     v.violation(f'c07:eval:no-result:{tag}', 'a documented expression produced no (or several) results', dict(d, n=len(res), want=str(exp)[:300]))
                     continue
                 got = res[0]['value']
@@ -151,7 +157,11 @@ def eval_case(spec):
                                     dict(d, got=str(got)[:300]), prop='C06')
                         continue
                     from .c06 import has_single_variant_cenum
-                    if has_single_variant_cenum(var['type']) and valcmp.contains_undecoded_enum(got):
+                    # the key of a set / map is (or holds) a zero-sized single-variant enum: it is shown without its variant (C06 known
+                    # finding), so no key literal can match it
+                    key_t = var['type'].get('inner') if var['type']['k'] in ('btreeset', 'hashset') else var['type'].get('key')
+                    keyed = tag in ('set-member', 'map-key', 'map-key-wildcard') and key_t is not None and has_single_variant_cenum(key_t)
+                    if keyed or has_single_variant_cenum(var['type']) and valcmp.contains_undecoded_enum(got):
                         v.violation('c06:enum-undecoded-zero-sized-single-variant:any:local', 'a field-less enum with a single variant is shown without a variant',
                                     dict(d, got=str(got)[:300]), prop='C06')
                         continue
